@@ -154,7 +154,7 @@ fn scenarios_of(prop: &str, tier: Tier) -> Vec<HScn> {
                 }
             }
             if !q {
-                v.push(hscn("par", W2, false, full_cfg(2), None, 48));
+                v.push(hscn("par", W2, false, full_cfg(2), Some(3), 48));
             }
             // a backward `next` jump out of a guarded branch (one round of rework)
             for keep in [false, true] {
